@@ -46,6 +46,18 @@ Theorem C02_tlv_order_irrelevant : forall l l' b b',
   NoDup (map fst l) -> Permutation l l' -> forallb tlv_ok l = true -> forallb tlv_ok l' = true ->
   lay_all lay_tlv l = Some b -> lay_all lay_tlv l' = Some b' -> dec_tags b = dec_tags b'.
 Proof. exact dec_tags_order_irrelevant. Qed.
+(* ... whole PDUs: a frame laid out from the specification whose TLV section carries the value's
+   TLVs in ANY permutation decodes to exactly the values laid out *)
+Theorem C02_spec_frame_any_tlv_order : forall lay ks h vs0 t l body0 tlvs,
+  l_fields lay = FHeader :: ks ++ [FTags] -> existsb is_tags ks = false ->
+  lay_ok lay = true -> wf_vals lay (VHeader h :: vs0 ++ [VTags t]) ->
+  enc_fields lay (udhi_of (vs0 ++ [VTags t])) ks vs0 = Ok body0 ->
+  Permutation (filter nonempty t) l -> forallb tlv_ok l = true -> lay_all lay_tlv l = Some tlvs ->
+  16 + len body0 + len tlvs <= 65536 ->
+  unmarshal lay (spec_frame (l_id lay) 0 (u32_of_i32 (h_seq h)) (body0 ++ tlvs))
+  = Ok (VHeader {| h_len := 16 + len body0 + len tlvs; h_id := l_id lay; h_status := 0; h_seq := h_seq h |}
+        :: map norm_val vs0 ++ [VTags (filter nonempty t)]).
+Proof. exact spec_frame_any_tlv_order. Qed.
 (* ... and dest_address entries of both kinds in ANY order *)
 Theorem C02_dests_any_order : forall l b rest,
   forallb dest_ok l = true -> lay_param PDests (SDests l) = Some b ->
@@ -72,5 +84,6 @@ Print Assumptions C02_marshal_is_spec.
 Print Assumptions C02_spec_frame_decodes.
 Print Assumptions C02_tlvs_any_order.
 Print Assumptions C02_tlv_order_irrelevant.
+Print Assumptions C02_spec_frame_any_tlv_order.
 Print Assumptions C02_dests_any_order.
 Print Assumptions C02_no_misstatement.
